@@ -344,6 +344,10 @@ impl<C: Collect> Collect for Tap<C> {
     fn try_close(&self, s: span::Id) -> bool {
         self.0.try_close(s)
     }
+    #[allow(deprecated)]
+    fn drop_span(&self, s: span::Id) {
+        self.0.drop_span(s)
+    }
     fn current_span(&self) -> span::Current {
         self.0.current_span()
     }
@@ -528,12 +532,28 @@ fn child() {
                 json!(0)
             }),
             "drop" => {
+                let raw = step["raw"].as_str().map(|x| x.to_string());
                 let job = move |c: &mut Ctx| {
                     if c.default.is_none() {
                         c.default = Some(dispatch::set_default(&dd));
                     }
                     let h = sp2.lock().unwrap().remove(&s);
-                    drop(h);
+                    match (h, raw.as_deref()) {
+                        // a raw reference taken with clone_span outlives the handle and is given back without a `Span`
+                        (Some(h), Some(how)) => {
+                            let r = h.with_collector(|(id, d)| (d.clone_span(id), d.clone()));
+                            drop(h);
+                            if let Some((id, d)) = r {
+                                if how == "drop_span" {
+                                    #[allow(deprecated)]
+                                    d.drop_span(id);
+                                } else {
+                                    d.try_close(id);
+                                }
+                            }
+                        }
+                        (h, _) => drop(h),
+                    }
                     json!(0)
                 };
                 match step["during_modify"].as_u64().and_then(|id| env.holds.lock().unwrap().get(&id).cloned()) {
